@@ -523,6 +523,72 @@ func c03TermBM25F(c *Ctx, sx *symx.Ctx, F []string) {
 			r.Bad("O-2", fk+"#field:"+f+":selectors", c.P.Pos(fn.Pos()), "no fieldBM25 contribution for "+f+": matches in that field score nothing")
 		}
 	}
+	// inside the per-field formula a default may stand in for the average
+	// length only when that average is not positive: a positive average (also
+	// one below 1, as for sparsely filled fields) is part of the BM25F sum
+	if len(calls) > 0 {
+		if g := calls[0].Common().StaticCallee(); g != nil && len(g.Blocks) > 0 {
+			gk := load.FuncKey(g)
+			ssau.ForEachInstr(g, false, func(in ssa.Instruction) {
+				ph, ok := in.(*ssa.Phi)
+				if !ok {
+					return
+				}
+				var par *ssa.Parameter
+				for _, e := range ph.Edges {
+					if p, ok := e.(*ssa.Parameter); ok {
+						par = p
+					}
+				}
+				if par == nil {
+					return
+				}
+				for k, e := range ph.Edges {
+					if _, isC := ssau.ConstFloat(e); !isC {
+						continue
+					}
+					// the edge carrying the default: which values of the parameter take it?
+					pred := ph.Block().Preds[k]
+					verdict := ""
+					for _, iff := range ssau.Ifs(g) {
+						op, x, y, okc := ssau.CondOf(iff.Cond)
+						if !okc {
+							continue
+						}
+						if y == ssa.Value(par) {
+							x, y, op = y, x, ssau.Flip(op)
+						}
+						cst, isC := ssau.ConstFloat(y)
+						if x != ssa.Value(par) || !isC {
+							continue
+						}
+						// the edge of this test that leads to pred (or is pred -> phi block)
+						for side := 0; side < 2; side++ {
+							tb := iff.Block().Succs[side]
+							leads := tb == pred || (iff.Block() == pred && tb == ph.Block()) || tb.Dominates(pred)
+							if !leads {
+								continue
+							}
+							o := op
+							if side == 1 {
+								o = ssau.Negate(op)
+							}
+							// replaced region: par o cst
+							switch o {
+							case token.LEQ, token.LSS, token.EQL:
+								if cst > 0 {
+									verdict = fmt.Sprintf("%s %s %v", par.Name(), o, cst)
+								}
+							case token.GEQ, token.GTR, token.NEQ:
+								verdict = fmt.Sprintf("%s %s %v", par.Name(), o, cst)
+							}
+						}
+					}
+					r.Check(verdict == "", "O-2", gk+"#default-only-for-nonpositive:"+par.Name(), c.P.Pos(ph.Pos()), "the default replaces "+par.Name()+" only when it is not positive", "the default replaces "+par.Name()+" when "+verdict+": positive values are overridden, so the score is no longer the BM25F sum for fields with a small average length")
+				}
+			})
+		}
+	}
 	r.Check(len(calls) == len(F), "O-2", fk+"#one-call-per-field", c.P.Pos(fn.Pos()), fmt.Sprintf("%d contributions for %d fields", len(calls), len(F)), fmt.Sprintf("%d fieldBM25 contributions for %d fields: a field is counted twice or dropped", len(calls), len(F)))
 	// the return value sums all contributions
 	sum := map[*ssa.Call]bool{}
